@@ -73,6 +73,7 @@ def build(seed):
         for n in POOL:
             if rng.random() < 0.6:
                 M.decl[n] = (rng.choice(KINDS), rng.choice(["public", "public", "private"]))
+    A.late_private = rng.random() < 0.3
     exportsA = {n: kd for n, (kd, acc) in A.decl.items() if acc == "public"}
     # B uses A
     locals_ = []  # local names given by renames: referenced like the pool names
@@ -111,6 +112,8 @@ def build(seed):
         use_rename(B)
     elif form == "two" and len(exportsA) >= 2:
         use_two(B)
+    B.use_nature = rng.random() < 0.2
+    P1.use_nature = rng.random() < 0.2
     for n in POOL:
         if n not in B.imports and rng.random() < 0.5:
             B.decl[n] = (rng.choice(KINDS), "public")
@@ -129,6 +132,13 @@ def build(seed):
         for n in POOL:
             if n not in S.imports and rng.random() < 0.35:
                 S.decl[n] = (rng.choice(kinds_allowed), None)
+    # a dummy procedure of P1 declared by an interface body, named like something of the host or of a used module: inside P1 (and
+    # its internal procedure) the name is the dummy
+    P1.dummy = None
+    cand = [n for n in POOL if n not in P1.imports and n not in P1.decl]
+    if cand and rng.random() < 0.35:
+        P1.dummy = rng.choice(cand)
+        P1.decl[P1.dummy] = ("dummy", None)
     # the internal procedure's own name may come from the pool only through P1.decl (kind proc); I1 itself has a unique name
     ext_decoy = rng.choice(POOL + [None])
     # reference slots
@@ -142,7 +152,8 @@ def build(seed):
                     continue
                 if found is not None:
                     k = found[1]
-                    ok = (cls == "type" and k == "type") or (cls == "proc" and k == "proc") or (cls == "procish" and k in ("proc", "absint"))
+                    ok = ((cls == "type" and k == "type") or (cls == "proc" and k == "proc") or (cls == "procish" and k in ("proc", "absint", "dummy"))
+                          or (slot == "call" and k == "dummy"))
                     if not ok:
                         continue  # would be invalid Fortran: the visible entity of that name has another kind
                 if slot == "call" and S.kind == "module":
@@ -167,6 +178,8 @@ def cs(rng, n):
 def render_decl(S, n, kd, acc, spec, contains, rng):
     a = f", {acc}" if (acc and S.kind == "module") else ""
     dn = cs(rng, n)
+    if getattr(S, "late_private", False) and acc == "public" and kd != "type":
+        spec.append(f"public :: {n}")
     if kd == "type":
         spec += [f"type{a} :: {dn}", "integer :: fld", f"end type {dn}"]
     elif kd == "absint":
@@ -205,15 +218,21 @@ def render_scope(S, rng, lines):
     for n, (kd, acc) in S.decl.items():
         if kd == "proc" and S.kind != "module":
             continue  # internal procedures are rendered from the children list below
+        if kd == "dummy":
+            dn = cs(rng, n)
+            spec += ["interface", f"subroutine {dn}(x)", "integer, intent(in) :: x", f"end subroutine {dn}", "end interface"]
+            continue
         render_decl(S, n, kd, acc, spec, contains, rng)
+    if getattr(S, "late_private", False):
+        spec.append("private")  # after the declarations: every entity above carries an access attribute or is named in an access statement
     # types must be declared before they are referenced: declarations first, then slots
     render_slots(S, spec, body, rng)
     if S.kind == "module":
         lines.append(f"module {S.name}")
     else:
-        lines.append(f"subroutine {S.name}()")
+        lines.append(f"subroutine {S.name}({getattr(S, 'dummy', None) or ''})")
     if S.use_stmt:
-        lines.append(S.use_stmt)
+        lines.append(S.use_stmt if not getattr(S, "use_nature", False) else S.use_stmt.replace("use ", "use, non_intrinsic :: ", 1).replace("\nuse ", "\nuse, non_intrinsic :: "))
     lines.append("implicit none")
     lines += spec + body
     kids = list(S.children)
